@@ -171,6 +171,34 @@ impl<SE: crate::extensions::ShellExtensions> crate::Shell<SE> {
             .await
     }
 
+    /// Executes the given string as a shell program in the current call frame, numbering
+    /// its lines from the line of the command that is currently executing (as `eval` does).
+    ///
+    /// # Arguments
+    ///
+    /// * `command` - The command to execute.
+    /// * `source_info` - Information about the source of the command text.
+    /// * `params` - Execution parameters.
+    pub async fn run_string_at_current_line<S: Into<String>>(
+        &mut self,
+        command: S,
+        source_info: &crate::SourceInfo,
+        params: &ExecutionParameters,
+    ) -> Result<ExecutionResult, error::Error> {
+        // The string is parsed on its own, so positions in it start at line 1.
+        let delta = self
+            .call_stack
+            .current_frame()
+            .and_then(|frame| frame.current.as_ref().map(|pos| pos.line))
+            .map_or(0, |line| line.saturating_sub(1));
+
+        self.call_stack.increment_current_line_offset(delta);
+        let result = self.run_string(command, source_info, params).await;
+        self.call_stack.decrement_current_line_offset(delta);
+
+        result
+    }
+
     /// Executes the given command, provided to a shell executable on the command
     /// line (i.e., via `-c`).
     ///
